@@ -279,17 +279,20 @@ def run(ctx):
     for t in spec.get('latin1_tags', []):
         for nm, tbl in (('owned', owned), ('borrowed', borrowed)):
             ent = tbl.get(t)
-            if ent is None or not ent.get('parser'):
+            if ent is None or ent.get('error_arm'):
                 continue
-            PB = P.B(ent['parser'])
+            # the parser of the tag, or - when it was folded into the dispatcher - the dispatcher's arm
+            PB = P.B(ent['parser']) if ent.get('parser') else ent.get('host')
+            region = None if ent.get('parser') else ent.get('blocks')
             if PB is None:
                 continue
+            pname = ent['parser'] or ('%s:arm:%d' % (PB.path, t))
             inst = '%d:%s' % (t, nm)
-            utf8_calls = [bb for bb, tt in PB.calls() if any(n.endswith('::from_utf8') or n.endswith('from_utf8_lossy') or n.endswith('from_utf8_unchecked') for n in callee_names(tt))]
+            utf8_calls = [bb for bb, tt in PB.calls() if (region is None or bb in region) and any(n.endswith('::from_utf8') or n.endswith('from_utf8_lossy') or n.endswith('from_utf8_unchecked') for n in callee_names(tt))]
             unguarded = [bb for bb in utf8_calls if not _ascii_guarded(PB, bb)]
             if unguarded:
                 ctx.bad('C13.2-twin-atom-text', inst, '%s reads the bytes of a Latin-1 atom as UTF-8 without an is_ascii() test: for bytes such as C3 A9 it yields one character where the other decoder yields two'
-                        % ent['parser'].rsplit('::', 1)[1], ctx.where(PB, unguarded[0]), key='TWIN:%s:latin1-as-utf8' % ent['parser'])
+                        % pname.rsplit('::', 1)[1], ctx.where(PB, unguarded[0]), key='TWIN:%s:latin1-as-utf8' % pname)
             else:
                 ctx.ok('C13.2-twin-atom-text', inst, 'no UTF-8 reading of the raw bytes outside an is_ascii() branch', ctx.where(PB))
 
